@@ -13,17 +13,22 @@ filters' output at three observation points (flattened events, serialised text, 
 and the Lean reader is diffed with expat on the serialiser's output.
 """
 import json
+import re
 from harness import gen_xml, proto, evwire
 from harness.framework import Result, pmap
 from harness.proto import Atom, B
 
 PROP = 'C02'
-ENCODINGS = ['utf-8', 'ascii', 'latin-1', 'utf-16']
+from harness import extract_xml as _extract_xml
+ALL_ENCODINGS = list(_extract_xml.ENCODINGS)      # the translator's table: one source for oracle, correspondence, theorems
+ENCODINGS = ALL_ENCODINGS[:4]                     # utf-8, ascii, latin-1, utf-16: every case is rendered in these
+EXTRA_ENCODINGS = ALL_ENCODINGS[4:]               # one of these per case, in rotation (utf-32 and single-byte code pages)
 TRUSTED = [
     'modelled, not verified: genshi/output.py EmptyTagFilter, NamespaceFlattener, XMLSerializer, encode(); '
     'genshi/input.py XMLParser callbacks and _coalesce (hand-written Lean model tied by correspondence on generated streams)',
     'not modelled, only exercised: expat/pyexpat (both as genshi\'s tokenizer and as the oracle\'s independent reader), '
-    'the codecs (utf-8, ascii, latin-1, utf-16) — the model sees an encoding as the predicate "representable"',
+    'the codecs (utf-8/16/32, ascii, latin-1, iso-8859-2/-7/-15, cp1251, cp1252, cp437, koi8-r, mac-roman) — the model sees an encoding as the '
+    'predicate "representable", extracted by running every scalar value through the codec\'s encoder',
     'the spec-side reader Genshi.Xml.Reader is validated against expat on serializer output by correspondence, not proved against the XML recommendation',
     'strings with lone surrogates are outside Lean Char (and outside XML)',
 ]
@@ -158,7 +163,11 @@ def check_stream(case, stream, first, fails, res=None):
         bad('serialising twice is idempotent', text[:400], text2[:400])
         return
     markup = _markup_chars(first)
-    for enc in ENCODINGS:
+    k = len(text)
+    n = len(EXTRA_ENCODINGS)
+    for enc in ENCODINGS + [EXTRA_ENCODINGS[k % n]]:
+        if res is not None:
+            res.count('oracle-enc:' + enc)
         if not _encodable(markup, enc):
             if res is not None:
                 res.count('enc-skipped-unencodable-markup:' + enc)
@@ -415,8 +424,8 @@ class Corr(object):
             real = proto.N
         self.add('reparse', case, proto.line(C02, Atom('reparse'), text), real)
 
-    def add_enc(self, text, enc, case):
-        self.add('encode', case, proto.line(C02, Atom('enc'), enc_ranges(enc), text), real_enc(text, enc))
+    def add_enc(self, text, enc, case, tag=''):
+        self.add('encode' + tag, case, proto.line(C02, Atom('enc'), enc_ranges(enc), text), real_enc(text, enc))
 
     def finish(self):
         answers = proto.run_lines(self.lines)
@@ -466,6 +475,20 @@ class Corr(object):
                         self.res.disagreements.append({'stream': stream, 'case': case,
                                                        'model': 'inside docOK and idemOK but flatten(reparse(flatten)) != flatten',
                                                        'real': 'theorem ser_idempotent_partial'})
+                if len(model) >= 15:
+                    inb, bholds = (str(model[10]) == 'T'), (str(model[11]) == 'T')
+                    self.res.count('theorem-idem-builder-domain:%s:%s' % (stream, 'inside' if inb else 'outside'))
+                    if inb and not bholds:
+                        self.res.disagreements.append({'stream': stream, 'case': case,
+                                                       'model': 'inside docOK and builderShaped but flatten(reparse(flatten)) != flatten (mod None/"")',
+                                                       'real': 'theorem ser_idempotent_builder_events'})
+                    inbt, inpt, tih = (str(model[12]) == 'T'), (str(model[13]) == 'T'), (str(model[14]) == 'T')
+                    self.res.count('theorem-idem-text-domain:%s:%s' % (
+                        stream, 'builder' if inbt else 'parsed' if inpt else 'outside'))
+                    if (inbt or inpt) and not tih:
+                        self.res.disagreements.append({'stream': stream, 'case': case,
+                                                       'model': 'inside the text-level idempotence hypotheses (ascii) but ser(parseText(enc(ser))) != ser',
+                                                       'real': 'theorem ser_idempotent_builder / ser_idempotent_parsed_text'})
                 continue
             if post:
                 model = post(model)
@@ -580,6 +603,44 @@ def stats_key(doc):
     return '+'.join(sorted(gen_xml.doc_stats(doc)))
 
 
+_TAG_RE = re.compile(r'<([^/!?\s>][^\s/>]*)((?:\s+[^\s=]+="[^"]*")*)\s*(/?)>|</[^>]*>')
+_ATTR_RE = re.compile(r'([^\s=]+)="([^"]*)"')
+
+
+def builder_output_shape(text):
+    """which namespace constructs the flattener wrote for a builder tree (read off the real output):
+    distinct URIs, declarations below the root that re-bind or undeclare the default namespace,
+    made-up prefixes for attributes / elements"""
+    tags = set()
+    uris = set()
+    depth = 0
+    for m in _TAG_RE.finditer(text):
+        if m.group(0).startswith('</'):
+            depth -= 1
+            continue
+        name, attrs, empty = m.group(1), m.group(2) or '', m.group(3)
+        for a, v in _ATTR_RE.findall(attrs):
+            if a == 'xmlns':
+                if v:
+                    uris.add(v)
+                if depth > 0:
+                    tags.add('default-undeclared' if not v else 'default-rebound')
+            elif a.startswith('xmlns:'):
+                uris.add(v)
+                tags.add('made-up-prefix')
+            elif ':' in a and not a.startswith('xml:'):
+                tags.add('ns-attr-made-up-prefix')
+        if ':' in name:
+            tags.add('element-with-prefix')
+        if not empty:
+            depth += 1
+    if len(uris) >= 2:
+        tags.add('uris>=2')
+    if len(uris) >= 3:
+        tags.add('uris>=3')
+    return tags
+
+
 def shard(arg):
     import random
     from genshi.input import XML
@@ -601,6 +662,10 @@ def shard(arg):
         if rng.random() < 0.1:
             o['depth'] = 5
             o['width'] = 3
+        if i % 8 == 3:
+            # xmlns:xml="http://www.w3.org/XML/1998/namespace" on some elements (inside `nsDeclOK` since the
+            # hypothesis was weakened; the flattener must drop the declaration and keep `xml:` usable)
+            o['xml_prefix_decl'] = 0.25
         doc = gen_xml.gen_doc(rng, **o)
         text = gen_xml.write_doc(doc)
         case = {'kind': 'doc', 'text': text}
@@ -630,8 +695,24 @@ def shard(arg):
             texts.append(out)
             corr.add_text(out, case)
             corr.add_reparse(out, {'kind': 'read', 'text': out})
-            enc = ENCODINGS[(i // 4) % 4]
+            enc = ALL_ENCODINGS[(i // 4) % len(ALL_ENCODINGS)]
             corr.add_enc(out, enc, {'kind': 'enc', 'text': out, 'enc': enc})
+    # encode() against the model on texts drawn from the borders of each codec's repertoire (first / last
+    # code point of every extracted range and their neighbours), so that a table that is off by one shows
+    for enc in ALL_ENCODINGS:
+        pool = set()
+        for lo, hi in enc_ranges(enc):
+            for cp in (lo - 1, lo, hi, hi + 1):
+                if 0x20 <= cp < 0x110000 and not 0xd800 <= cp < 0xe000:
+                    pool.add(chr(cp))
+        pool = sorted(pool) + list('<&>"a')
+        for _ in range(2):
+            t = ''.join(rng.choice(pool) for _ in range(rng.randrange(4, 24)))
+            real = real_enc(t, enc)
+            raw = any(ord(c) > 127 for c in real)
+            res.count('enc-border:%s' % ('refs+raw' if '&#' in real and raw else 'refs' if '&#' in real else
+                                          'raw' if raw else 'ascii'))
+            corr.add_enc(t, enc, {'kind': 'enc', 'text': t, 'enc': enc}, tag='-border')
     # source documents without HTML entities through the reader (single quotes, hex references, spacing)
     for i in range(ndocs // 4):
         doc = gen_xml.gen_doc(rng, html_entities=False)
@@ -675,6 +756,27 @@ def shard(arg):
         corr.add_events(events, case, tag='-builder')
         if i % 5 == 0:
             corr.add_events(events, case, pref={'u1': 'k', 'u2': '', 'urn:x:y': 'ns1'}, tag='-builder-pref')
+        # what the flattener had to make up for this tree (measured on the real output), and the second pass:
+        # the parser's view of that output against `parseText`, and the real flattener on the parsed stream
+        # (made-up declarations met as explicit ones) against the model
+        try:
+            out = ''.join(_ser(events))
+        except Exception:  # noqa
+            res.count('tree:serializer-raised')
+            continue
+        shape = builder_output_shape(out)
+        for t in shape:
+            res.count('tree-out:' + t)
+        if {'default-rebound', 'ns-attr-made-up-prefix', 'uris>=2'} <= shape:
+            res.count('tree-out:all-three')
+        if tree_in_domain(tree) and i % 3 == 0:
+            corr.add_reparse(out, {'kind': 'read', 'text': out})
+            try:
+                events2 = list(XML(out))
+            except Exception:  # noqa
+                res.count('tree:output-not-parsed')
+                continue
+            corr.add_events(events2, {'kind': 'doc', 'text': out}, tag='-builder-second')
     for i in range(nwild):
         w = gen_wild(rng)
         case = {'kind': 'wild', 'events': _wire_json(w)}
